@@ -112,6 +112,14 @@ func (g *SymbolGraph) RemoveEdge(from, to graphs.SymbolKey, kind *SymbolEdgeKind
 		}
 	}
 
+	// deps/revDeps track node pairs rather than individual edges - keep the pair for as long as
+	// an edge of any other kind still connects the two nodes
+	for _, remaining := range g.edges[fromBase] {
+		if remaining.Edge.To.BaseId() == toBase {
+			return
+		}
+	}
+
 	if depsMap, ok := g.deps[fromBase]; ok {
 		delete(depsMap, to)
 		if len(depsMap) == 0 {
